@@ -33,12 +33,30 @@ def nontrivial(case):
 RULE = ("random clause lists over 1-4 unordered methods (some_call/each_call/stub, 8-bit masks = every predicate "
         "over the 8-value argument domain, response chains from the C02 grammar), strict and partial, histories "
         "of 4-24 calls biased to repeat one argument; distinct = different canonical JSON; non-trivial = some call "
-        "whose argument is accepted by at least two patterns of the called method")
+        "whose argument is accepted by at least two patterns of the called method; plus, complete: one method with two patterns "
+        "carrying EVERY pair of predicates over a 3-value argument domain x every history of length 3")
+
+
+def exhaustive_cases(tier):
+    """small scope, complete: one method, two patterns with EVERY pair of predicates over a 3-value argument domain,
+    every history of length 3 (thorough: also length 4, three patterns sampled, partial mocks)"""
+    import itertools
+    out = []
+    lengths = [3] if tier == "quick" else [3, 4]
+    for m1 in range(8):
+        for m2 in range(8):
+            terms = [{"kind": "call", "mid": 0, "opener": "each", "pat": {"matcher": m1, "dbg": 1, "ops": [("ret", 1), ("n", 1), ("then",), ("ret", 2)]}},
+                     {"kind": "call", "mid": 0, "opener": "each", "pat": {"matcher": m2, "dbg": 2, "ops": [("ret", 3)]}}]
+            for L in lengths:
+                for h in itertools.product(range(3), repeat=L):
+                    evs = [{"base": ("call", 0, 0, a)} for a in h] + [{"base": ("verify", 0)}]
+                    out.append({"partial": tier != "quick" and (m1 + m2 + sum(h)) % 2 == 1, "terms": terms, "events": evs, "_exh": True})
+    return out
 
 
 def gen_cases(rng, tier):
     n = 600 if tier == "quick" else 6000
-    out = []
+    out = exhaustive_cases(tier)
     for i in range(n):
         mids = rng.sample([0, 1, 2, 3, 4, 5], rng.randint(1, 4))
         g = K.Gen(rng, mids=mids, n_terms=(1, 6), n_events=(4, 24), ordered_frac=0.0,
